@@ -26,8 +26,8 @@ pub mod extras {
     }
     pub struct Acc64(pub i64);
     impl Gx<i64> for Acc64 {
-        fn gx_add(&mut self, v: i64) -> i64 { self.0 = self.0 * 5 - v; self.0 }
-        fn gx_peek(&self) -> i64 { self.0 + 2 }
+        fn gx_add(&mut self, v: i64) -> i64 { self.0 = self.0.wrapping_mul(5).wrapping_sub(v); self.0 }
+        fn gx_peek(&self) -> i64 { self.0.wrapping_add(2) }
     }
 
     // lifetime-parameterised trait
